@@ -132,6 +132,7 @@ func runC06(w *W) {
 	w.genFillBlock(fillStep(w), judge)
 	w.genBufferFill(judge)
 	w.genFillThenBlank(judge)
+	w.genBlankRunInString(judge)
 	w.genCarryThenNothing(judge)
 	w.genDenseSizes(judge)
 	w.genBackslashRuns(judge)
